@@ -81,9 +81,10 @@ FINE = {
 TYPES = ['SimpleContract', 'Contract', 'Transport', 'ExtendedTransport', 'Storage', 'MultiCommodityContract']
 
 
-def gen_case(rnd, oracle=None, kind=None, atype=None):
+def gen_case(rnd, oracle=None, kind=None, atype=None, dst=None):
     fine = rnd.choice(['h', 'h', 'h', 'h', '30min', '15min', '2h', 'd'])
-    dst = rnd.random() < 0.08   # daily steps of 23/24/25 hours: fine steps of unequal length under a coarse frequency
+    if dst is None:
+        dst = rnd.random() < 0.08   # daily steps of 23/24/25 hours: fine steps of unequal length under a coarse frequency
     if dst:
         fine = 'd'
         kind = kind or rnd.choice(['freq', 'freq', 'both'])
@@ -251,6 +252,9 @@ def cases(seed, n):
     rnd = random.Random(seed * 104729 + 13)
     for i in range(n):
         yield 'gen%d' % i, gen_case(random.Random(rnd.getrandbits(48)))
+    # fine steps of unequal length inside one coarse step (23/25-hour days under a coarser frequency), optimised
+    for i in range(max(4, n // 12)):
+        yield 'dst%d' % i, gen_case(random.Random(rnd.getrandbits(48)), oracle=True, kind='freq', dst=True)
 
 
 # ------------------------------------------------------------------ running the implementation with recorders
